@@ -631,6 +631,10 @@ impl P {
                     self.expect_p("(")?;
                     let v = match self.next() {
                         Tk::Num(v, _) => v,
+                        Tk::P("-") => match self.next() {
+                            Tk::Num(v, _) => -v,
+                            t => return Err(format!("csleep: {:?}", t)),
+                        },
                         t => return Err(format!("csleep: {:?}", t)),
                     };
                     self.expect_p(")")?;
